@@ -404,7 +404,9 @@ func (x *explorer) search(mvccs []mocktikv.MVCCStore) {
 			if dig(cs) != n.key {
 				x.st.diverged.Add(1)
 			}
-			n.enabled = x.enabledOps(w)
+			if d+1 < x.depth { // the last level is not expanded
+				n.enabled = x.enabledOps(w)
+			}
 			if w.nontrivial() {
 				x.st.nontrivial.Add(1)
 			}
